@@ -74,6 +74,27 @@ def walk_ids(o, acc=None, depth=0):
     return acc
 
 
+def hidden_state(o, acc=None, depth=0):
+    """state of stateful leaves that the value encoding does not show (the position of a stream), in traversal order"""
+    import io
+    acc = acc if acc is not None else []
+    if depth > 12:
+        return acc
+    if isinstance(o, io.BytesIO):
+        acc.append(("BytesIO", o.getvalue(), o.tell(), o.closed))
+    elif isinstance(o, (list, tuple, collections.deque)):
+        for x in o:
+            hidden_state(x, acc, depth + 1)
+    elif isinstance(o, dict):
+        for k, v in o.items():
+            hidden_state(k, acc, depth + 1)
+            hidden_state(v, acc, depth + 1)
+    elif dataclasses.is_dataclass(o) and not isinstance(o, type):
+        for f in dataclasses.fields(o):
+            hidden_state(getattr(o, f.name), acc, depth + 1)
+    return acc
+
+
 def default_objects(spec: morph.Spec):
     out = {}
     for name, s in morph.spec_classes_deep(spec).items():
@@ -206,9 +227,13 @@ def run_load_cases(ctx: Ctx, eng: morph.Engine, specs):
         for _ in range(2):
             try:
                 x = spec.gen(ctx.rng)
+                hs0 = hidden_state(x)
                 datum = eng.real.dumper("DISABLE", True, spec.hint)(x)
             except Exception:  # noqa: BLE001
                 continue
+            if hidden_state(x) != hs0:
+                ctx.fail("dump-mutates-object", f"dumping changed the state of a stateful leaf for {repr(spec.hint)[:120]}: "
+                         f"was {hs0}, is {hidden_state(x)}", {"hint": repr(spec.hint)[:300], "ty": spec.ty, "mode": "DISABLE"})
             mode = ctx.rng.choice(morph.MODES)
             ld = eng.real.loader(mode, True, spec.hint)
             dm = eng.real.dumper(mode, True, spec.hint)
@@ -245,13 +270,21 @@ def run_load_cases(ctx: Ctx, eng: morph.Engine, specs):
                 expect.append((case, real_prov(r1, arg_ids, {**shared, **dflt}), "load"))
             # ---- dump
             xs = copy.deepcopy(x)
+            hs = hidden_state(x)
             try:
                 d1 = dm(x)
                 d2 = dm(x)
             except Exception:  # noqa: BLE001
                 continue
-            if morph.canon_val(morph.enc(x)) != morph.canon_val(morph.enc(xs)):
-                ctx.fail("dump-mutates-object", f"dumping mutated the object for {repr(spec.hint)[:120]}", case)
+            if hs:
+                ctx.dist["dump:stateful-leaf"] += 1
+            if morph.canon_val(morph.enc(x)) != morph.canon_val(morph.enc(xs)) or hidden_state(x) != hs:
+                ctx.fail("dump-mutates-object", f"dumping mutated the object for {repr(spec.hint)[:120]}"
+                         + (f": stateful leaves were {hs}, are {hidden_state(x)}" if hidden_state(x) != hs else ""), case)
+            if morph.canon_val(morph.enc(d1)) != morph.canon_val(morph.enc(d2)) or \
+                    morph.canon_val(morph.enc(d1)) != morph.canon_val(morph.enc(datum)):
+                ctx.fail("dump-not-repeatable", f"two successive dumps of the same unchanged object differ for "
+                         f"{repr(spec.hint)[:120]}: {d1!r:.80} then {d2!r:.80}", case)
             obj_ids = walk_ids(x)
             both = [o for i, o in walk_ids(d1).items() if i in walk_ids(d2) and i not in obj_ids]
             if both:
@@ -352,7 +385,7 @@ def convert_probes(ctx: Ctx):
 
 def run(ctx: Ctx):
     eng = morph.Engine(ctx)
-    specs = eng.gen_specs(ctx.budget(200, 3000), 3 if ctx.tier == "quick" else 4)
+    specs = eng.gen_specs(ctx.budget(200, 3000), 3 if ctx.tier == "quick" else 4, stateful=True)
     run_load_cases(ctx, eng, specs)
     default_probes(ctx)
     extra_probes(ctx)
@@ -362,7 +395,7 @@ def run(ctx: Ctx):
 def search(ctx: Ctx):
     eng = morph.Engine(ctx)
     eng.drv = None
-    run_load_cases(ctx, eng, eng.gen_specs(2500, 4))
+    run_load_cases(ctx, eng, eng.gen_specs(2500, 4, stateful=True))
     default_probes(ctx)
     extra_probes(ctx)
     convert_probes(ctx)
